@@ -207,6 +207,14 @@ func genC19(o *Out, rng *rand.Rand, tier string) {
 				nm := randName(rng)
 				l.Labels = append(l.Labels, nm)
 				st = map[string]any{"k": "app", "i": 0, "name": B([]byte(nm))}
+			case op == 3 && rng.Intn(2) == 0:
+				// a parse that fails leaves the object as it was
+				bad := [][]byte{{63}, {5, 'a'}, {0xc0}, {2, 'x', 'y', 0xc0, 3, 0xc0, 3}}[rng.Intn(4)]
+				if err := l.FromBytes(append([]byte(nil), bad...)); err == nil {
+					st = map[string]any{"k": "reparsed", "i": 0, "name": B(bad)} // (does not happen: these strings are not decodable)
+				} else {
+					st = map[string]any{"k": "badparse", "i": 0, "name": B(bad)}
+				}
 			default:
 				st = map[string]any{"k": "enc", "i": 0, "name": []int{}}
 			}
